@@ -73,16 +73,30 @@ def reset():
                 val[:] = base
         except Exception:
             pass
-    # rebound scalars/None-able module globals that a cache may use (e.g. `_last = None` rebound to a tuple)
+    # rebound scalars/None-able module globals and class attributes: a memo (`_last = None` rebound to a
+    # tuple), a public switch (`par_util.SHOW_INFORMATIONAL_MESSAGES`), a default stored on a class
+    SC = (int, float, str, tuple, bool)
+    owners = []
     for m in _modules():
-        for name, val in list(vars(m).items()):
-            if name.startswith("_") and not name.startswith("__") and not isinstance(val, (types.ModuleType, types.FunctionType, type, MUTABLE, np.ndarray)):
-                k = ("scalar", m.__name__, name)
-                if k not in _BASE:
-                    if val is None or isinstance(val, (int, float, str, tuple, bool)):
-                        _BASE[k] = val
-                elif _BASE[k] is not val and (val is None or isinstance(val, (int, float, str, tuple, bool)) or _BASE[k] is None):
-                    try:
-                        setattr(m, name, _BASE[k])
-                    except Exception:
-                        pass
+        owners.append((m, m.__name__))
+        for val in list(vars(m).values()):
+            if isinstance(val, type) and getattr(val, "__module__", None) == m.__name__:
+                import enum
+
+                if not issubclass(val, enum.Enum):
+                    owners.append((val, m.__name__ + "." + val.__qualname__))
+    for owner, oname in owners:
+        for name, val in list(vars(owner).items()):
+            if name.startswith("__") or isinstance(val, (types.ModuleType, types.FunctionType, type, MUTABLE, np.ndarray, classmethod, staticmethod, property)):
+                continue
+            k = ("scalar", oname, name)
+            if k not in _BASE:
+                if val is None or isinstance(val, SC):
+                    _BASE[k] = val
+            elif _BASE[k] is not val and _BASE[k] != val and (val is None or isinstance(val, SC) or _BASE[k] is None):
+                try:
+                    setattr(owner, name, _BASE[k])
+                except Exception:
+                    pass
+    # attributes ADDED to a toasty class after the baseline was taken are not removed: they cannot have been
+    # there in a fresh process, but deleting attributes of live classes is riskier than the leak they stand for
